@@ -306,6 +306,11 @@ func (in *Interp) bitop(op token.Token, a, b *Term, bits uint8, signed bool) Val
 			return in.bitop(op, tb.Int(av), tb.Int(bv), bits, signed)
 		}
 	}
+	if bop, ok := map[token.Token]Op{token.AND: OBitAnd, token.OR: OBitOr, token.XOR: OBitXor}[op]; ok {
+		if t := tb.BitOp(bop, a, b); t != nil {
+			return t
+		}
+	}
 	unsup("bit operation %s on symbolic operands %s, %s", op, a, b)
 	return nil
 }
